@@ -646,3 +646,123 @@ func Characters(s string) []Character
   loop 2 invariant ne: 0 <= i && i <= 8 && len(s) >= 0 && backing(egcs) >= old(brk()) && (forall k in 0..len(egcs): len(egcs[k].Grapheme) > 0)
   ensures C17_nonempty: forall k in 0..len(result): len(result[k].Grapheme) > 0
 @*/
+
+/*@
+-- ------------------------------------------------------------------ terminal modes (C04, gating for C07)
+-- mode(n) is the ghost table of terminal modes a conforming terminal holds after the escape sequences written so
+-- far: DEC private mode n (CSI ? n h / l) -> 1 / 0, mode(-1) keypad application mode (ESC = / ESC >), mode(-2) the
+-- depth of kitty keyboard flags pushed (CSI > f u / CSI < u). Cursor visibility (25) and synchronized output (2026)
+-- are also toggled by the buffered writer around every frame; they are excluded here and belong to the renderer.
+pred AlwaysOn(m int) = m == 2004 || m == 1 || m == -1
+pred MouseMode(m int) = m == 1002 || m == 1003 || m == 1004 || m == 1006
+-- the modes start-up and Resume switch on, by advertised capability: nothing that was not advertised
+pred StartMode(vx *Vaxis, m int) =
+     AlwaysOn(m)
+  || (!vx.disableMouse && MouseMode(m))
+  || (vx.caps.sixels && m == 8452)
+  || (vx.caps.unicodeCore && !vx.caps.explicitWidth && m == 2027)
+  || (vx.caps.colorThemeUpdates && m == 2031)
+  || (vx.caps.inBandResize && m == 2048)
+pred Tracked(m int) = m != 25 && m != 2026 && m != -2
+
+func (w *writer) Flush() (n int, err error)
+  assume true -- Flush only transmits what was written and adjusts cursor visibility and synchronized output (modes 25, 2026): taken on trust here, see DESIGN R7
+  ensures modes: modeskept(25, 2026)
+  modifies nothing
+
+-- the console (github.com/containerd/console) is outside the module: Close and Reset are assumed to touch no
+-- module state; what they do to the tty's line discipline is not modelled
+extern func github.com/containerd/console.Console.Reset(c)
+extern func github.com/containerd/console.Console.Close(c)
+
+func (vx *Vaxis) enableModes()
+  tokens
+  modifies nothing
+  requires vx.tw != nil
+  ensures C04_on:   forall m in -1..10000: (Tracked(m) && StartMode(vx, m)) ==> mode(m) == 1
+  -- (C07) a mode is switched on only if its capability was advertised; everything else is left alone
+  ensures C07_gate: forall m in -1..10000: (Tracked(m) && !StartMode(vx, m)) ==> mode(m) == old(mode(m))
+  ensures C04_kitty: mode(-2) == old(mode(-2)) + (vx.caps.kittyKeyboard ? 1 : 0)
+
+func (vx *Vaxis) disableModes()
+  tokens
+  modifies nothing
+  requires vx.tw != nil
+  -- every mode start-up may have switched on is off again, for every capability set; nothing else is touched
+  ensures C04_off:  forall m in -1..10000: (Tracked(m) && StartMode(vx, m)) ==> mode(m) == 0
+  ensures C04_keep: forall m in -1..10000: (Tracked(m) && !StartMode(vx, m)) ==> mode(m) == old(mode(m))
+  ensures C04_kitty: mode(-2) == old(mode(-2)) - (vx.caps.kittyKeyboard ? 1 : 0)
+
+func (vx *Vaxis) enterAltScreen()
+  tokens
+  modifies vx.tw.vx.refresh
+  requires vx.tw != nil && vx.tw.vx != nil
+  ensures C04_alt: mode(1049) == 1 && modeskept(1049, 25, 2026)
+
+func (vx *Vaxis) exitAltScreen()
+  tokens
+  modifies vx.cursorNext.visible
+  requires vx.tw != nil
+  ensures C04_alt: mode(1049) == 0 && modeskept(1049, 25, 2026)
+@*/
+
+/*@
+-- Suspend (and Close, which ends with it) leaves every start-up mode off, the primary screen active and the kitty
+-- keyboard stack where it was before start-up pushed onto it -- for every capability set
+func (vx *Vaxis) Suspend() error
+  tokens
+  modifies vx.cursorLast.style, vx.cursorNext.visible
+  requires vx.tw != nil && vx.tw.vx != nil && vx.tw.vx.tw != nil && vx.parser != nil && vx.console != nil
+  ensures C04_off:  forall m in -1..10000: (Tracked(m) && StartMode(vx, m)) ==> mode(m) == 0
+  ensures C04_alt:  mode(1049) == 0
+  ensures C04_keep: forall m in -1..10000: (Tracked(m) && !StartMode(vx, m) && m != 1049) ==> mode(m) == old(mode(m))
+  ensures C04_kitty: mode(-2) == old(mode(-2)) - (vx.caps.kittyKeyboard ? 1 : 0)
+  ensures C04_caps: vx.caps == old(vx.caps) && vx.disableMouse == old(vx.disableMouse)
+
+-- a second Close is harmless: nothing is written
+func (vx *Vaxis) Close()
+  tokens
+  requires vx.tw != nil && vx.tw.vx != nil && vx.tw.vx.tw != nil && vx.parser != nil && vx.console != nil
+  ensures C04_idem: old(vx.closed) ==> modeskept()
+  ensures C04_closed: vx.closed
+  ensures C04_off: !old(vx.closed) ==> ((forall m in -1..10000: (Tracked(m) && StartMode(vx, m)) ==> mode(m) == 0) && mode(1049) == 0
+                                         && mode(-2) == old(mode(-2)) - (vx.caps.kittyKeyboard ? 1 : 0))
+@*/
+
+/*@
+-- Resume re-establishes exactly what start-up establishes (New ends with the same two calls): alternate screen,
+-- the start-up modes of the advertised capabilities, one more level of kitty keyboard flags
+extern func github.com/containerd/console.Console.SetRaw(c)
+extern func github.com/containerd/console.ConsoleFromFile(f)
+
+-- opening the tty creates the writer and the parser and starts the input goroutine; it writes nothing
+func (vx *Vaxis) openTty(tgts []*os.File) error
+  tokens
+  modifies vx.console, vx.tw, vx.parser
+  assume console.ErrNotAConsole != nil -- sentinel error value of github.com/containerd/console
+  loop 1 preserves old
+  loop 1 invariant frame: vx.tw == old(vx.tw) && vx.parser == old(vx.parser)
+  ensures ok_tw: result == nil ==> (vx.tw != nil && vx.tw.vx == vx)
+  ensures ok_con: result == nil ==> vx.console != nil
+  ensures ok_par: result == nil ==> vx.parser != nil
+  ensures C04_quiet: modeskept()
+
+func (vx *Vaxis) Resume() error
+  tokens
+  ensures C04_on: result == nil ==> ((forall m in -1..10000: (Tracked(m) && StartMode(vx, m)) ==> mode(m) == 1) && mode(1049) == 1
+                                      && (forall m in -1..10000: (Tracked(m) && !StartMode(vx, m) && m != 1049) ==> mode(m) == old(mode(m)))
+                                      && mode(-2) == old(mode(-2)) + (vx.caps.kittyKeyboard ? 1 : 0))
+  ensures C04_err: result != nil ==> modeskept()
+@*/
+
+/*@
+-- ------------------------------------------------------------------ what the host decoder makes of one sequence (C13)
+-- decodeKey's contract (C09) restricted to the forms an xterm-style encoder produces, read off the decoded structure
+-- of the string: SS3 x, CSI x (no parameters means key 1), CSI n ~, CSI n ; m x
+pred HostKeyOf(kind int, n int, p0 int, final int) rune =
+    kind == 2 ? SS3Key(final)
+  : (kind == 1 ? (maphas(specialsKeys, mk("specialKey", (n == 0 ? 1 : p0), final)) ? mapval(specialsKeys, mk("specialKey", (n == 0 ? 1 : p0), final)) : (n == 0 ? 1 : p0))
+  : 0)
+pred HostKey(s string) rune = (seqlead(s) == 0) ? HostKeyOf(seqkind(s), seqn(s), seqparam(s, 0), seqfinal(s)) : 0
+pred HostMods(s string) int = (seqkind(s) == 1 && seqn(s) >= 2) ? max(seqparam(s, 1) - 1, 0) : 0
+@*/
